@@ -100,7 +100,14 @@ class ExprMixin(object):
 
     def ghost_value(self, st, gname):
         z = st.ghost[gname]
-        return self.mk_int(z) if z.sort() == self.u.Int else SV(z)
+        u = self.u
+        if z.sort() == u.Int:
+            return self.mk_int(z)
+        if z.sort() == u.Bool:
+            return self.mk_bool(z)
+        if z.sort() == u.Val:
+            return SV(z)
+        return SV(None, "ghostarray", py=z)
 
     def cur_module(self):
         return self.cur_fid.split(":")[0] if self.cur_fid else None
@@ -198,8 +205,10 @@ class ExprMixin(object):
         if cls in CONTAINER_CLASSES:
             return st, SV(None, "callable", py=("contmethod", attr, base))
         if cls is None:
-            if attr in self.universal_fields:
-                return st, self.read_field(st, base, attr)
+            duck = self.duck_class(attr)
+            if duck is not None:
+                self.assumptions_used.add("A-duck: receiver of .%s is a %s" % (attr, duck))
+                return self.get_attr(st, SV(base.z, "ref", cls=duck, elem=base.elem), attr, acc, node)
             raise Undecided("attribute .%s on object of unknown class" % attr)
         # 1. property
         owner, prop = self.src.lookup_property(cls, attr)
@@ -227,6 +236,28 @@ class ExprMixin(object):
 
     universal_fields = ()
     module_globals = {}
+
+    def duck_class(self, attr):
+        """Static class for a member access on an object of unknown class: the unique
+        top-most class of the table that declares the member (field shape, method or property)."""
+        owners = []
+        for cname, ci in self.src.classes.items():
+            declares = attr in ci.methods or attr in ci.properties or attr in self.shapes.get(cname, {})
+            if declares:
+                owners.append(cname)
+        if not owners:
+            return None
+        # keep only classes that are not subclasses of another owner
+        tops = [c for c in owners if not any(o != c and self.src.is_subclass(c, o) for o in owners)]
+        if len(tops) == 1:
+            return tops[0]
+        # a plain data field declared with the same type everywhere: any owner will do
+        if all(attr not in self.src.classes[c].methods and attr not in self.src.classes[c].properties
+               for c in owners):
+            types = set(self.shapes.get(c, {}).get(attr) for c in tops)
+            if len(types) == 1 and not any(self.src.lookup_method(c, "__setattr__")[0] for c in tops):
+                return sorted(tops)[0]
+        return None
 
     def abstract_method(self, cls, attr):
         return ("abs:%s.%s" % (cls, attr)) in self.reg
@@ -695,6 +726,17 @@ class ExprMixin(object):
                     st, "div", self.auto_label(node, "modpos"), y > 0,
                     note="modulus positive (engine restriction)")
                 return st, self.mk_int(x % y)
+        if isinstance(op, ast.Add) and ((a.kind == "str" and b.kind is None and b.z is not None) or
+                                        (b.kind == "str" and a.kind is None and a.z is not None)):
+            unk = b if a.kind == "str" else a
+            if not self.in_spec:
+                self.oblige(st, "type", self.auto_label(node, "stradd"), u.is_S(unk.z),
+                            note="operand of str + is a string (TypeError otherwise)")
+            st.assume(u.is_S(unk.z))
+            if unk is a:
+                a = SV(a.z, "str")
+            else:
+                b = SV(b.z, "str")
         if isinstance(op, ast.Add) and a.kind == "str" and b.kind == "str":
             if a.cases is not None and b.cases is not None and len(a.cases) * len(b.cases) <= 12:
                 cases = []
